@@ -147,7 +147,10 @@ def read_dump(path: str):
                 crosscheck += 1
                 if tlc.parse_value(st['mbox']) != mbox:
                     raise tlc.TLCError('fast_value disagrees with tlc.parse_value')
-            mailboxes[mbid] = mbox
+            # a message without header fields: TLC prints the empty function as <<>>
+            mailboxes[mbid] = tuple(
+                m if isinstance(m['hdr'], dict)
+                else tlc.FrozenDict({**m, 'hdr': tlc.FrozenDict()}) for m in mbox)
             continue
         exp = fast_value(st['exp'])
         if crosscheck < 40:
@@ -812,6 +815,66 @@ def corrupt_exp(exp):
         uid=tlc.FrozenDict(alts=c(exp['uid']['alts'], 101), dev=exp['uid']['dev']))
 
 
+def model_and_replay(run: Run, cfg: str, tlc_seed: int, stats: dict, rng, label: str,
+                     workers: int, corrupt=None) -> bool:
+    """Run TLC on cfg with a state dump, read the triples, execute all of them."""
+    d = tempfile.mkdtemp(prefix='verif.c13.')
+    try:
+        t0 = time.time()
+        if os.environ.get('C13_NUMMB') and label == 'sample':   # experiments: sample size
+            text = open(os.path.join(tlc.SPEC_DIR, cfg)).read()
+            text = re.sub(r'NumMb = \d+', 'NumMb = %d' % int(os.environ['C13_NUMMB']), text)
+            cfg = os.path.join(d, 'Search_n.cfg')
+            open(cfg, 'w').write(text)
+        res = run_model(run, cfg, tlc_seed, d, workers=workers)
+        if not res.ok:
+            run.machinery(f'{cfg}: {res.violated or res.error}')
+            return False
+        try:
+            mailboxes, triples = read_dump(os.path.join(d, 'states.dump'))
+        except Exception as exc:   # noqa: BLE001
+            run.machinery(f'{cfg}: cannot read the state dump: {exc!r}')
+            return False
+    finally:
+        shutil.rmtree(d, ignore_errors=True)
+    if len(mailboxes) + len(triples) != res.distinct:
+        run.machinery(f'{cfg}: dump has {len(mailboxes) + len(triples)} states, TLC '
+                      f'reports {res.distinct}')
+        return False
+    if any(t['law'] for t in triples):
+        run.machinery(f'{cfg}: a law fails in a dumped state although TLC reported no violation')
+        return False
+    by_mb: dict = {}
+    for tr in triples:
+        by_mb.setdefault(tr['mbid'], []).append(tr)
+    t1 = time.time()
+    asked0 = stats['asked']
+    for mbid in sorted(by_mb):
+        trs = sorted(by_mb[mbid], key=lambda t: t['ktext'])
+        try:
+            execute_mailbox(run, stats, (label, mbid), mailboxes[mbid], trs, rng, corrupt)
+            late_arrival(run, stats, (label, mbid), mailboxes[mbid], trs, rng)
+        except PreconditionFailed as exc:
+            run.machinery(f'{cfg}: mailbox {mbid}: the view could not be built: {exc}')
+            return False
+    run.notes.setdefault('replayed', []).append({
+        'cfg': os.path.basename(cfg), 'tlc_seed': tlc_seed, 'mailboxes': len(mailboxes),
+        'views_with_hidden': sum(1 for m in mailboxes.values() if any(x['hidden'] for x in m)),
+        'view_sizes': {str(n): sum(1 for m in mailboxes.values() if len(m) == n)
+                       for n in range(4)},
+        'triples': len(triples), 'rewritten': sum(1 for t in triples if t['rw']),
+        'commands': stats['asked'] - asked0,
+        'model_wall_s': round(t1 - t0, 1), 'server_wall_s': round(time.time() - t1, 1)})
+    return True
+
+
+SMALL_SCOPE = (
+    'Search_small.cfg: every view of <= 2 messages (seen or not, recent suffix, any '
+    'subset expunged-but-hidden, UIDs from {101,103}) x every key tree of depth <= 2 '
+    'over {SEEN, DELETED, 2:*, UID 102:101}: the laws of the evaluator hold in all '
+    '%d <<view, program>> pairs')
+
+
 def main(tier: str) -> int:
     run = Run('C13', tier)
     rng = random.Random(run.seed)
@@ -828,87 +891,55 @@ def main(tier: str) -> int:
         'unannounced message may be searched or left out',
         'sequence numbers beyond the view / "*" in an empty view: BAD or evaluated',
         'strings are ASCII words placed wholly inside one header field or the '
-        'body; keyword names are matched in the case they were stored in']
-    small_out = {}
-
-    def small():
-        try:
-            small_out['res'] = tlc.run_tlc(SPEC, 'Search_small.cfg', workers=8,
-                                           timeout=1500, deadlock=False)
-        except Exception as exc:   # noqa: BLE001
-            small_out['err'] = repr(exc)
-
-    th = threading.Thread(target=small)
-    th.start()
-
-    cfg = 'Search_sample.cfg' if tier == 'quick' else 'Search_thorough.cfg'
-    d = tempfile.mkdtemp(prefix='verif.c13.')
-    try:
-        t0 = time.time()
-        if os.environ.get('C13_NUMMB'):      # experiments: another sample size
-            text = open(os.path.join(tlc.SPEC_DIR, cfg)).read()
-            text = re.sub(r'NumMb = \d+', 'NumMb = %d' % int(os.environ['C13_NUMMB']), text)
-            cfg = os.path.join(d, 'Search_n.cfg')
-            open(cfg, 'w').write(text)
-        res = run_model(run, cfg, 1000 + run.seed, d, workers=8)
-        if not res.ok:
-            run.machinery(f'{cfg}: {res.violated or res.error}')
-            th.join()
-            return run.finish()
-        try:
-            mailboxes, triples = read_dump(os.path.join(d, 'states.dump'))
-        except Exception as exc:   # noqa: BLE001
-            run.machinery(f'cannot read the state dump: {exc!r}')
-            th.join()
-            return run.finish()
-    finally:
-        shutil.rmtree(d, ignore_errors=True)
-    run.notes['sample'] = {'cfg': cfg, 'tlc_seed': 1000 + run.seed,
-                           'mailboxes': len(mailboxes), 'triples': len(triples),
-                           'rewritten': sum(1 for t in triples if t['rw']),
-                           'model_wall_s': round(time.time() - t0, 1)}
-    if any(t['law'] for t in triples):
-        run.machinery('a law fails in a dumped state although TLC reported no violation')
-
-    by_mb: dict = {}
-    for tr in triples:
-        by_mb.setdefault(tr['mbid'], []).append(tr)
+        'body; keyword names are matched in the case they were stored in',
+        'bad_command_limit is switched off in the server under test (the known BAD '
+        'answers would otherwise disconnect the session after five in a row)']
     stats = {'asked': 0, 'seq': 0, 'uid': 0, 'hidden_view': 0, 'hidden_view_uid': 0,
              'ops': {}, 'known_example': {}}
     corrupt = None
     if os.environ.get('C13_CORRUPT_SPEC'):      # self-test of the comparison
         corrupt = lambda tr, uid: key_depth(tr['key']) == 2 and not tr['rw']  # noqa: E731
-    t1 = time.time()
-    for mbid in sorted(by_mb):
-        trs = sorted(by_mb[mbid], key=lambda t: t['ktext'])
-        try:
-            execute_mailbox(run, stats, mbid, mailboxes[mbid], trs, rng, corrupt)
-            late_arrival(run, stats, mbid, mailboxes[mbid], trs, rng)
-        except PreconditionFailed as exc:
-            run.machinery(f'mailbox {mbid}: view could not be built: {exc}')
-            break
-    run.notes['server_wall_s'] = round(time.time() - t1, 1)
+
+    if tier == 'quick':
+        # the exhaustive check of the laws runs next to the replay of the sample
+        small_out = {}
+
+        def small():
+            try:
+                small_out['res'] = tlc.run_tlc(SPEC, 'Search_small.cfg', workers=8,
+                                               timeout=1500, deadlock=False)
+            except Exception as exc:   # noqa: BLE001
+                small_out['err'] = repr(exc)
+
+        th = threading.Thread(target=small)
+        th.start()
+        model_and_replay(run, 'Search_sample.cfg', 1000 + run.seed, stats, rng,
+                         'sample', 8, corrupt)
+        th.join()
+        if 'res' in small_out:
+            sres = small_out['res']
+            run.add_model(sres, 'Search_small.cfg')
+            if not sres.ok:
+                run.machinery(f'Search_small.cfg: {sres.violated or sres.error}')
+            run.notes['exhaustive_scope'] = SMALL_SCOPE % sres.generated
+        else:
+            run.machinery('Search_small.cfg: ' + small_out.get('err', 'no result'))
+        run.cov['exhaustive'] = False
+    else:
+        ok = model_and_replay(run, 'Search_thorough.cfg', 1000 + run.seed, stats, rng,
+                              'sample', 16, corrupt)
+        # ... and every triple of the exhaustively enumerated small universe
+        ok = model_and_replay(run, 'Search_small.cfg', 1, stats, rng, 'small', 16,
+                              corrupt) and ok
+        if ok:
+            n = run.notes['replayed'][-1]['triples']
+            run.notes['exhaustive_scope'] = (SMALL_SCOPE % n) + (
+                '; every one of them also executed on the real server')
+        run.cov['exhaustive'] = ok
+
     run.notes['asked'] = {k: v for k, v in stats.items() if k not in ('ops', 'known_example')}
     run.notes['ops_exercised'] = dict(sorted(stats['ops'].items()))
     run.notes['known_examples'] = stats['known_example']
-    run.notes['views'] = {
-        'with_hidden': sum(1 for m in mailboxes.values() if any(x['hidden'] for x in m)),
-        'sizes': sorted(len(m) for m in mailboxes.values())}
-
-    th.join()
-    if 'res' in small_out:
-        sres = small_out['res']
-        run.add_model(sres, 'Search_small.cfg')
-        if not sres.ok:
-            run.machinery(f'Search_small.cfg: {sres.violated or sres.error}')
-        run.notes['exhaustive_scope'] = (
-            'Search_small.cfg: every view of <= 2 messages (seen or not, recent suffix, '
-            'any subset hidden, UIDs from {101,103}) x every key tree of depth <= 2 over '
-            '{SEEN, DELETED, 2:*, UID 102:101}: the laws of the evaluator hold in all '
-            f'{sres.generated} <<view, program>> pairs')
-    else:
-        run.machinery('Search_small.cfg: ' + small_out.get('err', 'no result'))
-    run.cov['exhaustive'] = False
     return run.finish()
 
 
